@@ -6,10 +6,11 @@
    where the code calls `node_update` and nowhere else (two branches of
    prune_rec and the Leaf branch of prune leave it stale, as in the code).
 
-   Not modelled: OcTreeLeaf::index / OcTree::find (not used by quantisation),
-   usize overflow of the accumulators (needs > 2^56 pixels). *)
+   The leaf accumulators are machine words of the widths the source declares (regenerated:
+   Gen/TabOctree.v); `+=` on them is checked, as in a debug build (Panic on overflow).
+   Not modelled: OcTreeLeaf::index / OcTree::find (not used by quantisation). *)
 From Coq Require Import List NArith Bool.
-From SNT Require Import Base.Outcome Image.KDTree.
+From SNT Require Import Base.Outcome Image.KDTree Gen.TabOctree.
 Import ListNotations.
 Local Open Scope N_scope.
 
@@ -23,6 +24,17 @@ Definition leaf_add (l : leaf) (c : rgb) : leaf :=
   let '(r, g, b) := c in mkLeaf (l_r l + r) (l_g l + g) (l_b l + b) (l_n l + 1).
 Definition leaf_join (l m : leaf) : leaf :=
   mkLeaf (l_r l + l_r m) (l_g l + l_g m) (l_b l + l_b m) (l_n l + l_n m).
+
+(* the accumulators fit their declared types *)
+Definition leaf_fits (l : leaf) : bool :=
+  (l_r l <? leaf_acc_limit) && (l_g l <? leaf_acc_limit) && (l_b l <? leaf_acc_limit)
+  && (l_n l <? leaf_count_limit).
+
+(* `leaf += rgba` (image.rs:1129) and `leaf += leaf` (image.rs:1138): overflow panics *)
+Definition leaf_add_chk (l : leaf) (c : rgb) : outcome leaf :=
+  let l' := leaf_add l c in if leaf_fits l' then Ok l' else Panic 1129.
+Definition leaf_join_chk (l m : leaf) : outcome leaf :=
+  let l' := leaf_join l m in if leaf_fits l' then Ok l' else Panic 1138.
 
 (* OcTreeLeaf::to_rgba: integer division, `as u8`; color_count = 0 divides by zero *)
 Definition leaf_rgb (l : leaf) : outcome rgb :=
@@ -125,7 +137,7 @@ Fixpoint insert_rec (path : list nat) (c : rgb) (n : node) : outcome node :=
           let* child := insert_rec rest c Empty in
           let ch := set_at k child empty8 in
           Ok (Tree (from_slice ch) leaf_new ch)
-      | Leaf l => Ok (Leaf (leaf_add l c))
+      | Leaf l => let* l' := leaf_add_chk l c in Ok (Leaf l')
       | Tree _ rm ch =>
           let* child := insert_rec rest c (nth k ch Empty) in
           let ch' := set_at k child ch in
@@ -134,7 +146,7 @@ Fixpoint insert_rec (path : list nat) (c : rgb) (n : node) : outcome node :=
   | [] =>
       match n with
       | Empty => Ok (Leaf (leaf_of c))
-      | Leaf l => Ok (Leaf (leaf_add l c))
+      | Leaf l => let* l' := leaf_add_chk l c in Ok (Leaf l')
       | Tree _ _ _ => Panic 1336                     (* unreachable!() *)
       end
   end.
@@ -203,14 +215,14 @@ Fixpoint prune_rec (n : node) : outcome node :=
           | Empty => Panic 1373                        (* unreachable!("agrmin_color_count found and empty node") *)
           | Leaf l =>
               (* tree.removed += leaf; NO node_update: info stays as it was *)
-              let rm' := leaf_join rm l in
+              let* rm' := leaf_join_chk rm l in
               let ch' := set_at k Empty ch in
               if all_empty ch' then Ok (Leaf rm') else Ok (Tree i rm' ch')
           | Tree _ _ _ =>
               let* ch1 := map_at_o prune_rec ch k in
               match nth k ch1 Empty with
               | Leaf l =>
-                  if all_empty (set_at k Empty ch) then Ok (Leaf (leaf_join rm l))
+                  if all_empty (set_at k Empty ch) then (let* rm' := leaf_join_chk rm l in Ok (Leaf rm'))
                   else Ok (Tree (from_slice ch1) rm ch1)
               | _ => Ok (Tree (from_slice ch1) rm ch1)
               end
@@ -229,7 +241,8 @@ Definition oc_prune (t : octree) : outcome octree :=
       | Empty => Panic 1401                            (* unreachable!(..) *)
       | Leaf l =>
           (* self.removed += leaf; the root's info is NOT recomputed *)
-          Ok (mkOc (o_info t) (leaf_join (o_removed t) l) (set_at k Empty ch))
+          let* rm' := leaf_join_chk (o_removed t) l in
+          Ok (mkOc (o_info t) rm' (set_at k Empty ch))
       | Tree _ _ _ =>
           let* ch1 := map_at_o prune_rec ch k in
           Ok (mkOc (from_slice ch1) (o_removed t) ch1)
